@@ -14,6 +14,10 @@ CLAIMED = {
             "property-based testing (rapid): reference-formula oracle", "Weighted sum: the known finding D10 is matched by its own signature (reported = plain signed sum); any other deviation still raises. Choquet after criterion-adding biases is not judged."),
     "C04": ("Component-level generation of value multisets for AlternativeResults.Ranking() plus API-level tie-heavy/near-tie requests; order, exact link sets and reachability derived from the reported values; permutation metamorphic relation.",
             "property-based testing (rapid): order/link oracle + permutation metamorphic relation", "Permutation invariance judged on requests without biases."),
+    "C05": ("Differential oracle: an independent textbook re-implementation of ELECTRE III (concordance, discordance, credibility, distillation over index sets, numbering) compared with the reported indices on generated requests (50% integer/dyadic instances with frequent ties) and with RankAscending/RankDescending on generated credibility matrices; links-from-indices rule.",
+            "property-based testing (rapid): differential against an independent reference implementation", "Naming of ascending/descending taken from the textbook matrices pinned in the repository's tests. Instances with a non-zero comparison margin below 1e-9 are skipped as ambiguous (counted)."),
+    "C06": ("Metamorphic relations with no reference implementation: planted weakly dominated pairs and identical twins inside generated ELECTRE III problems, independent permutation of knownAlternatives/choseToMake, every weight k multiplied by 2^m; three decisions per case.",
+            "property-based testing (rapid): metamorphic relations (dominance, twins, permutation, scaling)", "Dominance is not judged on instances where float noise could decide a reference comparison (margin below 1e-9, counted)."),
     "C07": ("7 methods x all bias sequences of length 0..4 with a recording probe bias around every step; invariants over the recorded pipeline history (answered, values for every criterion, parameters cover criteria operationally, split unchanged, criteria change exactly as reported, untouched values bit-identical) and probed == un-probed response.",
             "property-based testing (rapid): pipeline-history invariants via probe bias", "The probe is a public-interface bias returning `current` unchanged; exp-overflow of the documented anchoring formula (alpha x |d| > 600) is outside the numeric domain and skipped (counted)."),
 }
